@@ -418,6 +418,10 @@ fn exec_seq(ops: &[Op], unwinding: bool) -> Sx {
 pub fn seq_case(ops: &[Op]) -> Sx {
     sx::tag(0, vec![Sx::L(SHAPE.iter().map(|&b| sx::boolean(b)).collect()), Sx::L(ops.iter().map(enc_op).collect())])
 }
+/// The same history inside a tokio task whose cooperative budget is used up (closing must not depend on it).
+pub fn seq_case_no_budget(ops: &[Op]) -> Sx {
+    sx::tag(0, vec![Sx::L(SHAPE.iter().map(|&b| sx::boolean(b)).collect()), Sx::L(ops.iter().map(enc_op).collect()), sx::n(2u8)])
+}
 /// The same history with every drop performed during an unwind (third argument; the model does not read it).
 pub fn seq_case_unwinding(ops: &[Op]) -> Sx {
     sx::tag(0, vec![Sx::L(SHAPE.iter().map(|&b| sx::boolean(b)).collect()), Sx::L(ops.iter().map(enc_op).collect()), sx::boolean(true)])
@@ -452,8 +456,17 @@ pub fn exec(case: &Sx) -> (Sx, bool) {
             let ops: Vec<Op> = case.arg(1).list().iter().map(dec_op).collect();
             let opened = ops.iter().any(|o| matches!(o, Op::Open(..)));
             let dropped = ops.iter().any(|o| matches!(o, Op::K(KOp::DropOwner(_))));
-            let unwinding = case.list().len() > 3 && case.arg(2).num() != 0;
-            (exec_seq(&ops, unwinding), opened && dropped)
+            // third argument (not read by the model): where the history runs — 1 = every drop on an unwinding frame,
+            // 2 = the whole history inside a tokio task whose cooperative budget is exhausted
+            let placement = if case.list().len() > 3 { case.arg(2).num() } else { 0 };
+            if placement == 2 {
+                let ops2 = ops.clone();
+                let (r, exhausted) = crate::common::in_exhausted_tokio_task(move || exec_seq(&ops2, false));
+                if !exhausted { eprintln!("c13: the tokio budget was not exhausted"); }
+                (r, opened && dropped)
+            } else {
+                (exec_seq(&ops, placement == 1), opened && dropped)
+            }
         }
     }
 }
@@ -1058,6 +1071,14 @@ pub fn run(ctx: &Ctx) {
             for ops in &all {
                 emit(&mut out, seq_case_unwinding(ops));
                 out.count("histories_with_drops_during_unwind");
+            }
+        }
+        // ... and the histories that never poll wait_for_data (a future may answer Pending without budget) inside a
+        // tokio task whose cooperative budget is exhausted
+        if ci <= 1 {
+            for ops in all.iter().filter(|o| !o.iter().any(|x| matches!(x, Op::WaitPoll(_)))).step_by(if ctx.tier_thorough { 1 } else { 3 }) {
+                emit(&mut out, seq_case_no_budget(ops));
+                out.count("histories_in_a_tokio_task_without_budget");
             }
         }
     }
